@@ -30,6 +30,7 @@ type Writer struct {
 	nidx int64 // Number of records per index
 	nchk int64 // Raw size of each independent chunk
 	err  error // Persistent error
+	done bool  // Has Close completed successfully?
 
 	// The following fields are embedded here to reduce memory allocations.
 	scratch [64]byte
@@ -207,7 +208,7 @@ func (xw *Writer) Flush(mode FlushMode) error {
 // This method automatically writes an index if any chunks have been written
 // since the last FlushIndex.
 func (xw *Writer) Close() error {
-	if xw.err == errClosed {
+	if xw.done {
 		return nil
 	}
 	if xw.err != nil {
@@ -227,7 +228,7 @@ func (xw *Writer) Close() error {
 	if err != nil {
 		xw.err = err
 	} else {
-		xw.err = errClosed
+		xw.err, xw.done = errClosed, true
 	}
 	return err
 }
